@@ -3559,7 +3559,15 @@ impl GlobalInferenceCtx<'_> {
                                     });
                                 }
                                 None => {
-                                    if dest_ty.is_weak_replaceable_by(&value_ty) {
+                                    // a named struct is never a weak type. (`is_weak_replaceable_by`
+                                    // says it is replaceable by a `distinct` of itself, which let
+                                    // `s = d` with `s : S`, `d : distinct S` through unchecked)
+                                    let dest_is_named_struct =
+                                        matches!(dest_ty.as_ref(), Ty::ConcreteStruct { .. });
+
+                                    if !dest_is_named_struct
+                                        && dest_ty.is_weak_replaceable_by(&value_ty)
+                                    {
                                         self.replace_weak_tys(assign_body.dest, value_ty);
                                     } else {
                                         self.expect_match(
